@@ -59,3 +59,17 @@ def base_ibans(country: str, fillers) -> list[tuple[str, str]]:
         seen.add(b)
         out.append((f, iban_text(country, b)))
     return out
+
+
+def partners(country: str, body: str | None = None) -> list[str]:
+    """Other countries with the same BBAN length (optionally: whose structure admits ``body``).
+    The library's objects compare and hash by their text alone, so anything remembered per BBAN
+    *text* is shared between such countries - they are the collisions worth forcing."""
+    cs = reg.countries()
+    me = cs[country]
+    out = []
+    for k in sorted(cs):
+        c = cs[k]
+        if k != country and c.bban_length == me.bban_length and (body is None or c.matches(body)):
+            out.append(k)
+    return out
